@@ -9,6 +9,7 @@ import Drive.Codec
 import Drive.Files
 import Drive.Heap
 import Drive.Recorder
+import Drive.Threads
 /-! Line-protocol driver: one JSON object per line on stdin (`{"m": <handler>, …}`), one JSON value per line on
 stdout (`{"ok": …}` or `{"err": …}`).  Runs the executable definitions of the model. -/
 open Lean
@@ -16,7 +17,7 @@ open Lean
 def allHandlers : List (String × Drive.Handler) :=
   Drive.C14.handlers ++ Drive.Async.handlers ++ Drive.Equalizer.handlers ++ Drive.Studio.handlers ++
   Drive.S3.handlers ++ Drive.Lookup.handlers ++ Drive.Codec.handlers ++ Drive.Files.handlers ++
-  Drive.Heap.handlers ++ Drive.Recorder.handlers
+  Drive.Heap.handlers ++ Drive.Recorder.handlers ++ Drive.Threads.handlers
 
 def dispatch (line : String) : Json :=
   match Json.parse line with
